@@ -66,3 +66,10 @@ import NdnGen.NameGen
 #print axioms Ndn.NameGen.encoded_length_eq
 #print axioms Ndn.NameGen.is_prefix_core_eq
 #print axioms Ndn.NameGen.encode_eq
+#print axioms Ndn.NameGen.encode_eq_empty
+#print axioms Ndn.NameGen.encode_into_eq
+#print axioms Ndn.NameGen.decode_eq
+#print axioms Ndn.NameGen.decode_error_class
+#print axioms Ndn.NameGen.decode_fuel_suffices
+#print axioms Ndn.NameGen.decode_error_of_model
+#print axioms Ndn.NameGen.decode_ok_model
